@@ -44,3 +44,6 @@ package coreutils
 //@   ensures bh.ParentID != types.BlockID{} ==> result.Index.Height == s.Index.Height + 1
 //@ extern (consensus.State).MaxFutureTimestamp pure
 //@ extern (consensus.State).SufficientlyHeavierThan pure
+//@ extern consensus.ApplyBlock pure
+//@   ensures result0.Index.ID == b.ID()
+//@ extern consensus.RevertBlock pure
